@@ -80,6 +80,12 @@ func cmdVerify(args []string) {
 	bad := 0
 	for _, k := range keys {
 		fn := w.lookupFunc(k)
+		if fn != nil && os.Getenv("GOWP_DUMP_SSA") != "" {
+			fn.WriteTo(os.Stderr)
+			for _, a := range fn.AnonFuncs {
+				a.WriteTo(os.Stderr)
+			}
+		}
 		if fn == nil {
 			fmt.Printf("%s: NO SUCH FUNCTION\n", k)
 			bad++
